@@ -6,6 +6,12 @@ package main
 // UFix128).  Uses numCall / numErrKind / numCtxPool / numOpSyntax of stream_num.go (harness_files).
 //
 // Line:  fix <Type> <Method> <rawA> <rawB> [interp|vm]  =>  ok:<raw> | err:<kind> | nil | panic
+//        fix <Type> MulDiv <rule> <rawA> <rawB> <rawC> [interp|vm]  =>  same
+//          a.multiplyDivide(b, c, rounding: RoundingRule.<rule>); rule = towardZero | awayFromZero |
+//          nearestHalfAway | nearestHalfEven | default (scripts only: the argument is omitted).  Direct calls
+//          hand the library's rounding mode of that name to the value's MultiplyDivide method.  Triples are
+//          biased to inexact quotients, divisors of exactly +-1.0, ties at exactly half a unit (and one off),
+//          quotients that only the rounding pushes out of the range, zero divisors, both signs.
 // Operands are boundary-biased: 0, ±1 unit, ±1.0, min, max, values whose products / quotients straddle
 // the range (around sqrt(max·scale), max/k, scale²/k), sub-unit products, random.
 
@@ -16,6 +22,7 @@ import (
 
 	"github.com/onflow/cadence/fixedpoint"
 	"github.com/onflow/cadence/interpreter"
+	fix "github.com/onflow/fixed-point"
 
 	"verif/harness/internal/cdc"
 	"verif/harness/internal/hx"
@@ -172,6 +179,30 @@ func genFix(c *hx.Ctx) {
 			}
 		}
 	}
+	// multiplyDivide: every rounding rule on every triple
+	for _, t := range fixTypeTable {
+		for _, tr := range fixMulDivCorners(t) {
+			for _, rule := range fixRules {
+				c.Emit("fix", t.name, "MulDiv", rule, tr[0].String(), tr[1].String(), tr[2].String())
+			}
+		}
+		for i := 0; i < c.N; i++ {
+			tr := fixMulDivTriple(r, t)
+			for _, rule := range fixRules {
+				c.Emit("fix", t.name, "MulDiv", rule, tr[0].String(), tr[1].String(), tr[2].String())
+			}
+		}
+	}
+	nMD := c.N / 3
+	if nMD > 300 {
+		nMD = 300
+	}
+	for i := 0; i < nMD; i++ {
+		t := fixTypeTable[r.Intn(len(fixTypeTable))]
+		tr := fixMulDivTriple(r, t)
+		rule := append(fixRules, "default")[r.Intn(5)]
+		c.Emit("fix", t.name, "MulDiv", rule, tr[0].String(), tr[1].String(), tr[2].String(), []string{"interp", "vm"}[i%2])
+	}
 	nScripts := c.N / 2
 	if nScripts > 500 {
 		nScripts = 500
@@ -182,6 +213,207 @@ func genFix(c *hx.Ctx) {
 		b := fixPartner(r, t, a)
 		c.Emit("fix", t.name, fixOps[r.Intn(len(fixOps))], a.String(), b.String(), []string{"interp", "vm"}[i%2])
 	}
+}
+
+// ---- multiplyDivide
+
+var fixRules = []string{"towardZero", "awayFromZero", "nearestHalfAway", "nearestHalfEven"}
+
+// the library's rounding mode with the name of the Cadence rule
+var fixRuleMode = map[string]fix.RoundingMode{
+	"towardZero": fix.RoundTowardZero, "awayFromZero": fix.RoundAwayFromZero,
+	"nearestHalfAway": fix.RoundNearestHalfAway, "nearestHalfEven": fix.RoundNearestHalfEven,
+}
+
+func fixClampTo(t fixType, x *big.Int) *big.Int {
+	if x.Cmp(t.hi()) > 0 {
+		return t.hi()
+	}
+	if x.Cmp(t.lo()) < 0 {
+		return t.lo()
+	}
+	return x
+}
+
+// random signs (only for the signed types)
+func fixSigns(r *hx.Rng, t fixType, tr [3]*big.Int) [3]*big.Int {
+	if !t.signed {
+		return tr
+	}
+	for i := range tr {
+		if r.Chance(35) {
+			tr[i] = fixClampTo(t, new(big.Int).Neg(tr[i]))
+		}
+	}
+	return tr
+}
+
+func fixMulDivCorners(t fixType) [][3]*big.Int {
+	s, h, l := t.scale(), t.hi(), t.lo()
+	half := new(big.Int).Quo(s, big.NewInt(2))
+	vals := []*big.Int{big.NewInt(0), big.NewInt(1), big.NewInt(2), big.NewInt(3), half, s, new(big.Int).Add(s, half), h, l}
+	if t.signed {
+		vals = append(vals, big.NewInt(-1), big.NewInt(-3), new(big.Int).Neg(half), new(big.Int).Neg(s), new(big.Int).Neg(new(big.Int).Add(s, half)))
+	}
+	var out [][3]*big.Int
+	for _, a := range vals {
+		for _, b := range vals {
+			for _, c := range vals {
+				out = append(out, [3]*big.Int{a, b, c})
+			}
+		}
+	}
+	return out
+}
+
+func fixMulDivTriple(r *hx.Rng, t fixType) [3]*big.Int {
+	s, h := t.scale(), t.hi()
+	small := func(n int) *big.Int { return big.NewInt(int64(1 + r.Intn(n))) }
+	one := func() *big.Int { // exactly 1.0 (or -1.0)
+		return new(big.Int).Set(s)
+	}
+	pos := func(x *big.Int) *big.Int { // a positive value of the type
+		x = new(big.Int).Abs(x)
+		if x.Sign() == 0 {
+			x = big.NewInt(1)
+		}
+		return fixClampTo(t, x)
+	}
+	var tr [3]*big.Int
+	switch r.Intn(10) {
+	case 0: // divisor exactly 1.0, product below / around one unit: a*b not a multiple of the scale
+		tr = [3]*big.Int{pos(fixBoundary(r, t)), small(20000), one()}
+		if r.Bool() {
+			tr[0] = new(big.Int).Add(new(big.Int).Mul(s, small(3)), new(big.Int).Quo(s, small(9))) // k.xxx
+		}
+	case 1: // divisor exactly 1.0, a tie: (2m+1) units times 0.5, 1.5, 2.5 ..
+		odd := new(big.Int).Add(new(big.Int).Mul(small(1000), big.NewInt(2)), big.NewInt(1))
+		f := new(big.Int).Quo(s, big.NewInt(2))
+		f.Mul(f, new(big.Int).Add(new(big.Int).Mul(big.NewInt(int64(r.Intn(4))), big.NewInt(2)), big.NewInt(1)))
+		tr = [3]*big.Int{odd, f, one()}
+		if r.Bool() {
+			tr[0], tr[1] = tr[1], tr[0]
+		}
+	case 2: // a tie with a general even divisor c = 2k:  a*b = k * odd
+		k := pos(fixBoundary(r, t))
+		k = new(big.Int).Quo(k, big.NewInt(2))
+		if k.Sign() == 0 {
+			k = big.NewInt(1)
+		}
+		odd := new(big.Int).Add(new(big.Int).Mul(small(1000), big.NewInt(2)), big.NewInt(1))
+		tr = [3]*big.Int{k, odd, new(big.Int).Mul(k, big.NewInt(2))}
+	case 3: // one off a tie: a*b = c*q + c/2 +- 1 with b = 1 unit .. small, c even
+		c := new(big.Int).Mul(small(1<<20), big.NewInt(2))
+		q := small(1 << 20)
+		ab := new(big.Int).Add(new(big.Int).Mul(c, q), new(big.Int).Quo(c, big.NewInt(2)))
+		ab.Add(ab, big.NewInt(int64(r.Intn(3))-1))
+		tr = [3]*big.Int{pos(ab), big.NewInt(1), c}
+	case 4: // only the rounding leaves the range: max < a*b/c < max + 1 unit (resp. below min)
+		H := h
+		if t.signed && r.Bool() {
+			H = new(big.Int).Neg(t.lo())
+		}
+		c := pos(fixBoundary(r, t))
+		if c.Cmp(h) >= 0 {
+			c = new(big.Int).Sub(h, big.NewInt(1))
+		}
+		b := new(big.Int).Add(c, big.NewInt(1))
+		a := new(big.Int).Sub(H, new(big.Int).Quo(H, b))
+		if r.Chance(30) {
+			a.Sub(a, big.NewInt(1)) // just inside
+		}
+		if H.Cmp(h) != 0 {
+			a.Neg(a)
+		}
+		return [3]*big.Int{fixClampTo(t, a), b, c}
+	case 5: // zero divisor / zero operands
+		tr = [3]*big.Int{fixBoundary(r, t), fixBoundary(r, t), big.NewInt(0)}
+		if r.Chance(30) {
+			tr[r.Intn(2)] = big.NewInt(0)
+		}
+		if r.Chance(25) {
+			tr[2] = pos(fixBoundary(r, t))
+			tr[r.Intn(2)] = big.NewInt(0)
+		}
+		return tr
+	case 6: // quotient near a bound: c ~ a*b / bound
+		a, b := pos(fixBoundary(r, t)), pos(fixBoundary(r, t))
+		c := new(big.Int).Quo(new(big.Int).Mul(a, b), h)
+		c.Add(c, big.NewInt(int64(r.Intn(5))-2))
+		tr = [3]*big.Int{a, b, pos(c)}
+	case 7: // divisor 1.0 with boundary operands (products that need more than 128 / 256 bits)
+		tr = [3]*big.Int{pos(fixBoundary(r, t)), pos(fixPartner(r, t, pos(fixBoundary(r, t)))), one()}
+	case 8: // large operands, large divisor: the intermediate product does not fit the type
+		a, b := pos(fixBoundary(r, t)), pos(fixBoundary(r, t))
+		c := a
+		if r.Bool() {
+			c = b
+		}
+		c = new(big.Int).Add(c, big.NewInt(int64(r.Intn(7))-3))
+		tr = [3]*big.Int{a, b, pos(c)}
+	default:
+		tr = [3]*big.Int{fixBoundary(r, t), fixBoundary(r, t), fixBoundary(r, t)}
+		return tr
+	}
+	return fixSigns(r, t, tr)
+}
+
+func fixMulDivExec(t fixType, op []string) (out string) {
+	if len(op) < 7 {
+		return "bad-op"
+	}
+	var v [3]*big.Int
+	for i := range v {
+		x, ok := new(big.Int).SetString(op[4+i], 10)
+		if !ok || !t.inRange(x) {
+			return "bad-op"
+		}
+		v[i] = x
+	}
+	if len(op) >= 8 {
+		return fixMulDivScript(t, op[3], v, op[7] == "vm")
+	}
+	mode, ok := fixRuleMode[op[3]]
+	if !ok {
+		return "bad-op"
+	}
+	ctx := numCtxPool.Get().(*interpreter.Interpreter)
+	defer numCtxPool.Put(ctx)
+	defer func() {
+		if r := recover(); r != nil {
+			out = numErrKind(r)
+		}
+	}()
+	recv, ok1 := t.mk(v[0]).(interpreter.FixedPointValue)
+	f, ok2 := t.mk(v[1]).(interpreter.FixedPointValue)
+	d, ok3 := t.mk(v[2]).(interpreter.FixedPointValue)
+	if !ok1 || !ok2 || !ok3 {
+		return "bad-op"
+	}
+	res := recv.MultiplyDivide(ctx, f, d, mode)
+	if res == nil {
+		return "nil"
+	}
+	raw, ok := fixRawOf(res)
+	if !ok {
+		return "bad-op"
+	}
+	return "ok:" + raw
+}
+
+func fixMulDivScript(t fixType, rule string, v [3]*big.Int, vm bool) string {
+	call := "a.multiplyDivide(b, c, rounding: RoundingRule." + rule + ")"
+	if rule == "default" {
+		call = "a.multiplyDivide(b, c)"
+	} else if _, ok := fixRuleMode[rule]; !ok {
+		return "bad-op"
+	}
+	src := fmt.Sprintf("access(all) fun main(a: %[1]s, b: %[1]s, c: %[1]s): %[1]s { return %[2]s }", t.name, call)
+	arg := func(x *big.Int) []byte {
+		return []byte(fmt.Sprintf(`{"type":"%s","value":"%s"}`, t.name, fixDecimal(x, t.digits)))
+	}
+	env := cdc.NewEnv()
+	return fixScriptResult(t, env.Script(src, [][]byte{arg(v[0]), arg(v[1]), arg(v[2])}, vm))
 }
 
 func fixRawOf(v interpreter.Value) (string, bool) {
@@ -219,6 +451,9 @@ func fixExec(op []string) (out string) {
 	t, ok := fixTypeByName(op[1])
 	if !ok {
 		return "bad-op"
+	}
+	if op[2] == "MulDiv" {
+		return fixMulDivExec(t, op)
 	}
 	a, okA := new(big.Int).SetString(op[3], 10)
 	b, okB := new(big.Int).SetString(op[4], 10)
@@ -259,7 +494,10 @@ func fixScript(t fixType, op string, a, b *big.Int, vm bool) string {
 		return []byte(fmt.Sprintf(`{"type":"%s","value":"%s"}`, t.name, fixDecimal(x, t.digits)))
 	}
 	env := cdc.NewEnv()
-	o := env.Script(src, [][]byte{arg(a), arg(b)}, vm)
+	return fixScriptResult(t, env.Script(src, [][]byte{arg(a), arg(b)}, vm))
+}
+
+func fixScriptResult(t fixType, o *cdc.Outcome) string {
 	switch o.Class {
 	case "none":
 		s := o.Value.String()
